@@ -28,6 +28,11 @@ func runC13(c *Ctx) {
 	c.Rule("C13.U", "definite overwrite of every authority-bearing URL field before the dial", 9)
 	c.Rule("C13.D", "who-may-dial in the shim package", 6)
 	c.Rule("C13.M", "mounting of the shim endpoints and pass-through identity", 9)
+	c.Rule("C13.W", "who-may-write the request on its way through session handler and shim: no new writer of Host/URL fields (= C02.W); no mux or redirect on the pass-through route (= C02.T)", 9)
+	c.Borrow(runC02, "C02.W", "C13.W", func(k string) bool {
+		return strings.HasPrefix(k, "agent/sessions.") || strings.HasPrefix(k, "agent/websockets.")
+	})
+	ruleTransparentChain(c, p, "C13.W")
 
 	se := resolveShimEndpoints(c, p, "C13.U")
 	if se == nil || se.Inner == nil {
